@@ -25,6 +25,8 @@ Sub-checks
   of the end-of-archive blocks; one flipped byte per header-field class and in member data. Outcome must be
   "raises TarError/OSError/EOFError", or "exactly the full tree" (only padding was lost / the flip is immaterial),
   or - for flips in data bytes, which tar cannot detect - exactly the flipped content.
+* ``fuzz``      (thorough tier only): ``vf/fuzz/fuzz_tar_read.py`` under atheris, 16 jobs x 125k executions (seeded and
+  empty corpus), differential against ``tarfile`` on member list and contents, in memory.
 """
 from __future__ import annotations
 
@@ -186,7 +188,7 @@ def make_archive(producer: str, src_path: str) -> bytes | None:
     parent, base = os.path.split(src_path)
     if tool == "gnutar":
         p = subprocess.run(
-            ["tar", "chf", "-", f"--format={fmt}", *(["--pax-option=delete=atime,delete=ctime"] if fmt == "pax" else []), "-C", parent, "--", base],
+            ["tar", "chf", "-", "--no-unquote", f"--format={fmt}", *(["--pax-option=delete=atime,delete=ctime"] if fmt == "pax" else []), "-C", parent, "--", base],
             stdout=subprocess.PIPE, stderr=subprocess.PIPE, stdin=subprocess.DEVNULL,
         )
         if p.returncode != 0:
@@ -250,13 +252,14 @@ def raw_entries(data: bytes) -> tuple[list[dict], int]:
 # running the code under test
 
 
-async def extract_with(data: bytes, policy: dict, src: str, dst: str, bufsize: int):
+async def extract_with(data: bytes, policy: dict, src: str, dst: str, bufsize: int, reader=None):
     """Exactly the body of connector.base.copy_remote_to_local, on a fake stream. Returns the reader."""
     from streamflow.deployment import aiotarstream
     from streamflow.deployment.connector.base import extract_tar_stream
 
-    FakeReader, _ = _fake_reader_class()
-    reader = FakeReader(data, policy)
+    if reader is None:
+        FakeReader, _ = _fake_reader_class()
+        reader = FakeReader(data, policy)
     async with aiotarstream.open(stream=reader, mode="r", copybufsize=bufsize) as tar:
         await extract_tar_stream(tar, src, dst, bufsize)
     return reader
@@ -316,7 +319,12 @@ def _decode_chunking(args):
     }
 
 
-def chunking_cases(max_size: int = 65537):
+def _max_size() -> int:
+    return 65537 if fs.current_tier() == "quick" else 1048576
+
+
+def chunking_cases(max_size: int | None = None):
+    max_size = max_size or _max_size()
     top = st.one_of(fs.plain_names(), fs.plain_names(), fs.names("hostile", long_names=True), fs.names("plain", long_names=True))
     return st.tuples(st.integers(0, 2**32 - 1), _source_strategy(max_size), top).map(_decode_chunking)
 
@@ -341,7 +349,7 @@ def _classify_archive(rec, ents, data, entries, case):
     rec.label("archive:" + ("<=10KiB" if len(data) <= 10240 else "<=100KiB" if len(data) <= 102400 else ">100KiB"))
 
 
-@prop.given("chunking", chunking_cases(), quick=220, thorough=5000, shrink=False)
+@prop.given("chunking", chunking_cases, quick=160, thorough=5000, shrink=False, max_shards=8)
 async def check_chunking(case, rec):
     import shutil
     import tempfile
@@ -368,19 +376,39 @@ async def check_chunking(case, rec):
             {"kind": "random", "seed": case["rseed"], "cap": 1 << 20},
             {"kind": "fixed", "k": tiny},
         ]
-        in_header = in_data = False
         members = [e for e in ents if e["type"] in {"0", "1", "5", "7"}]
+        seen = {"header": False, "data": False}
+        FakeReader, _ = _fake_reader_class()
+
+        def measure(reader) -> None:
+            """non-triviality is measured from the read log, also when the verdict is a (known) violation"""
+            cuts = reader.cuts  # ascending
+            for e in ents:
+                i1 = bisect.bisect_right(cuts, e["hdr"])
+                if i1 < len(cuts) and cuts[i1] < e["hdr"] + 512:
+                    seen["header"] = True
+                if e["size"] > 1:
+                    i2 = bisect.bisect_right(cuts, e["data"])
+                    if i2 < len(cuts) and cuts[i2] < e["end"]:
+                        seen["data"] = True
+            rec.nontrivial(len(members) >= 2 and seen["header"] and seen["data"])
+
+        rec.label("policy:mid=%d" % case["mid"], "policy:tiny=%d" % tiny if tiny <= 100 else "policy:tiny>100")
         for i, policy in enumerate(policies):
             out_root = os.path.join(sandbox, f"out{i}")
             dst, final_rel, expected = prepare_dst(case["mode"], out_root, base)
             expected.update(relocate(want_obj, final_rel))
             tag = "short-reads" if policy["kind"] != "n" and (policy.get("k", 0) < 511) else "reads>=511"
+            reader = FakeReader(data, policy)
             try:
-                reader = await extract_with(data, policy, src_path, dst, case["buf"])
+                await extract_with(data, policy, src_path, dst, case["buf"], reader=reader)
             except HangDetected as e:
+                measure(reader)
                 raise Violation(f"C23:chunking:{tag}:hang", f"policy {policy}: {e}") from None
             except ACCEPTED as e:
+                measure(reader)
                 raise Violation(f"C23:chunking:{tag}:raises:{type(e).__name__}", f"policy {policy} on an intact archive ({case['producer']}, {len(data)} bytes): {e}") from None
+            measure(reader)
             got = fs.snapshot(out_root)
             if got != expected:
                 missing = sorted(set(expected) - set(got))
@@ -391,18 +419,7 @@ async def check_chunking(case, rec):
                     f"policy {policy}, producer {case['producer']}, mode {case['mode']}, {len(ents)} raw entries, {len(data)} bytes, "
                     f"{reader.calls} reads: extract_tar_stream returned normally\n" + fs.diff_snapshots(expected, got),
                 )
-            cuts = reader.cuts  # ascending
-            for e in ents:
-                i1 = bisect.bisect_right(cuts, e["hdr"])
-                if i1 < len(cuts) and cuts[i1] < e["hdr"] + 512:
-                    in_header = True
-                if e["size"] > 1:
-                    i2 = bisect.bisect_right(cuts, e["data"])
-                    if i2 < len(cuts) and cuts[i2] < e["end"]:
-                        in_data = True
             shutil.rmtree(out_root, ignore_errors=True)
-        rec.label("policy:mid=%d" % case["mid"], "policy:tiny=%d" % tiny if tiny <= 100 else "policy:tiny>100")
-        rec.nontrivial(len(members) >= 2 and in_header and in_data)
     finally:
         shutil.rmtree(sandbox, ignore_errors=True)
 
@@ -417,12 +434,13 @@ def _decode_writer(args):
     return {"source": source, "top": top, "buf": [64, 1000, 4096, 65536, None][h[0] % 5], "arc": ["abs", "rel", "renamed"][h[1] % 3]}
 
 
-def writer_cases(max_size: int = 65537):
+def writer_cases(max_size: int | None = None):
+    max_size = max_size or _max_size()
     top = st.one_of(fs.plain_names(), fs.names("hostile", long_names=True), fs.names("plain", long_names=True))
     return st.tuples(st.integers(0, 2**32 - 1), _source_strategy(max_size), top).map(_decode_writer)
 
 
-@prop.given("writer", writer_cases(), quick=120, thorough=3000, shrink=False)
+@prop.given("writer", writer_cases, quick=80, thorough=3000, shrink=False, max_shards=4)
 async def check_writer(case, rec):
     """copy_local_to_remote's half: the async writer's archive is what GNU tar and tarfile understand."""
     import shutil
@@ -584,7 +602,8 @@ HEADER_FIELDS = {"name": 0, "mode": 101, "size": 134, "chksum": 150, "typeflag":
 
 
 def gen_faults(tier):
-    n_arch = 20 if tier == "quick" else 1000
+    scale = float(os.environ.get("VERIF_BUDGET", "1"))
+    n_arch = max(len(FIXED_SOURCES) + 2, int((20 if tier == "quick" else 1000) * scale))
     producers = PRODUCERS if tier == "quick" else PRODUCERS
     for i in range(n_arch):
         # quick: every archive with two producers (rotating), the hand-written ones with all
@@ -714,10 +733,11 @@ async def check_faults(case, rec):
                 return
             expected = exp2
         missing = sorted(set(expected) - set(got))
-        shorter = sorted(k for k in set(expected) & set(got) if tuple(expected[k]) != tuple(got[k]))
-        sym = "members-missing" if missing and not shorter else "partial-file" if shorter and not missing else "missing+partial" if missing else "differs"
+        changed = sorted(k for k in set(expected) & set(got) if tuple(expected[k]) != tuple(got[k]))
+        extra = sorted(set(got) - set(expected))
+        sym = "partial-file" if changed else "members-missing" if missing and not extra else "differs"
         raise Violation(
-            f"C23:{group}:silent:{sym}",
+            f"C23:{group}:silent-{sym}",
             f"{case}: offset {off} of {len(data)} bytes ({len(ents)} raw entries): extract_tar_stream returned normally\n" + fs.diff_snapshots(expected, got),
         )
     finally:
@@ -762,7 +782,64 @@ def _fault_group(case, e) -> str:
     if cls == "mid-header":
         return "truncated:in-first-header" if e["hdr"] == 0 else "truncated:in-later-header"
     if cls in ("data-end", "mid-pad"):
-        return "truncated:in-padding"
+        return "truncated:at-entry-boundary"  # data complete, padding (partly) lost: the next header read finds nothing
     if cls == "header-start":
-        return "truncated:empty-stream" if e["hdr"] == 0 else "truncated:between-entries"
+        return "truncated:empty-stream" if e["hdr"] == 0 else "truncated:at-entry-boundary"
     return "truncated:end-of-archive"
+
+
+# ------------------------------------------------------------------------------------------------
+# coverage-guided fuzzing (thorough tier only; atheris from /verif/.deps)
+
+
+def gen_fuzz(tier):
+    if tier != "thorough":
+        return
+    scale = float(os.environ.get("VERIF_BUDGET", "1"))
+    seed = int(os.environ.get("VERIF_SEED", "1") or "1")
+    runs = max(2000, int(125_000 * scale))
+    for j in range(16):  # 16 x 125k = 2e6 executions, half of the jobs start from an empty corpus
+        yield {"corpus": "seeded" if j % 2 == 0 else "empty", "runs": runs, "seed": seed * 100 + j}
+
+
+@prop.enumerated("fuzz", gen_fuzz, exhaustive=False)
+def check_fuzz(case, rec):
+    """vf/fuzz/fuzz_tar_read.py: bytes -> chunked stream -> AioTarStream, differential against tarfile."""
+    import json
+    import shutil
+    import sys
+    import tempfile
+
+    verif = os.path.dirname(os.path.dirname(os.path.dirname(os.path.abspath(__file__))))
+    repo = os.environ.get("VERIF_REPO", "/repo")
+    d = tempfile.mkdtemp(prefix="vf-c23fuzz-")
+    try:
+        corpus = os.path.join(d, "corpus")
+        os.makedirs(corpus)
+        cmd = [sys.executable, "-m", "vf.fuzz.fuzz_tar_read", "--stats", os.path.join(d, "stats.json")]
+        if case["corpus"] == "seeded":
+            cmd += ["--seed-corpus", corpus]
+        cmd += [f"-runs={case['runs']}", f"-seed={case['seed']}", "-max_len=20000", f"-artifact_prefix={d}/", corpus]
+        env = dict(os.environ, PYTHONPATH=f"{verif}/.deps:{repo}:{verif}")
+        p = subprocess.run(cmd, cwd=d, env=env, stdout=subprocess.PIPE, stderr=subprocess.STDOUT)
+        out = p.stdout.decode("utf-8", "replace")
+        if "No module named 'atheris'" in out or "cannot import name" in out and "atheris" in out:
+            rec.label("fuzz:atheris-unavailable")
+            raise HarnessError("atheris is not importable from /verif/.deps: " + out[-400:])
+        stats = {}
+        if os.path.exists(os.path.join(d, "stats.json")):
+            stats = json.load(open(os.path.join(d, "stats.json")))
+        rec.label(f"fuzz:corpus-{case['corpus']}")
+        rec.bulk(evaluations=stats.get("executions", 0), nontrivial=stats.get("multi_member", 0))
+        if p.returncode != 0:
+            kind = "unknown"
+            for line in out.splitlines():
+                if line.startswith("C23-FUZZ-VIOLATION"):
+                    kind = line.split()[1]
+            crash = [f for f in os.listdir(d) if f.startswith(("crash-", "timeout-", "oom-"))]
+            blob = open(os.path.join(d, crash[0]), "rb").read().hex() if crash else ""
+            if kind == "unknown" and "Uncaught Python exception" not in out:
+                raise HarnessError("fuzzer failed: " + out[-1500:])
+            raise Violation(f"C23:fuzz:{kind}", out[-1200:] + "\ninput(hex, first byte = policy): " + blob[:4000])
+    finally:
+        shutil.rmtree(d, ignore_errors=True)
